@@ -88,7 +88,19 @@ func c10Case(o *Out, r *Rng) {
 	}
 	root, w, qi := newWorld(s, g)
 	doc := d.text()
-	if kind == "reject" && reject != "undefined-type-condition" && len(d.frags) > 0 && r.Chance(45) {
+	if kind == "reject" && reject == "undefined-type-condition" && len(d.frags) > 0 && r.Chance(50) {
+		// the undefined type as the condition of a fragment *definition* (inline fragments are covered below)
+		fr := Pick(r, d.frags)
+		head := "fragment " + fr.name + " on " + fr.cond
+		if strings.Contains(doc, head+" ") {
+			doc = strings.Replace(doc, head+" ", "fragment "+fr.name+" on Nope ", 1)
+			kind = "rejectfragdef"
+			o.Count("reject-site=fragment-definition-type")
+		}
+	}
+	if kind == "rejectfragdef" {
+		// injected above
+	} else if kind == "reject" && reject != "undefined-type-condition" && len(d.frags) > 0 && r.Chance(45) {
 		// the directive on a fragment definition (read after the spread that uses it: the definition fills a
 		// placeholder), on a fragment spread, or on an inline fragment
 		dir := map[string]string{"unknown-directive": "@nope", "misplaced-directive": "@deprecated", "unknown-directive-arg": "@skip(if: false, unless: true)"}[reject]
